@@ -47,12 +47,12 @@ silent("c10-msm-range-narrowed", ["C10", "C15"], [(MSG, 'if "1070" <= self.ident
 fire("c15-mid-shift", ["C15"], MSG, "mid = self._payload[0] << 4 | self._payload[1] >> 4", "mid = self._payload[0] << 4 | self._payload[1] >> 3")
 fire("c15-subtype-mask", ["C15"], MSG, "subtype = (self._payload[1] & 0x1) << 7", "subtype = (self._payload[1] & 0x3) << 7")
 fire("c15-subtype-format", ["C15"], MSG, '{subtype:03d}', '{subtype:02d}')
-fire("c15-igs-const", ["C15"], MSG, "if mid == 4076:  # proprietary", "if mid == 4067:  # proprietary")
+fire("c15-igs-const", ["C15"], MSG, "if mid == 4076 and len(self._payload) > 2:  # proprietary", "if mid == 4067 and len(self._payload) > 2:  # proprietary")
 fire("c15-stub-raises", ["C15"], MSG, '        setattr(self, "DF002", self.identity)\n        self._unknown = True', '        setattr(self, "DF002", self.identity)\n        self._unknown = True\n        if len(self._payload) > 1000:\n            raise RTCMMessageError("unknown message too long")')
 fire("c15-getdict-subscript", ["C15", "C10"], MSG, "return RTCM_PAYLOADS_GET.get(self.identity, None)", "return RTCM_PAYLOADS_GET[self.identity]", "unknown type raises KeyError")
 fire("c15-msm-predicate-substring", ["C15"], MSG, 'return "MSM" in RTCM_MSGIDS[self.identity]', 'return "M" in RTCM_MSGIDS[self.identity]', "ismsm true for other messages")
-silent("c15-identity-locals-renamed", ["C15"], [(MSG, "mid = self._payload[0] << 4 | self._payload[1] >> 4\n\n        if mid == 4076:  # proprietary IGS SSR message type\n            subtype = (self._payload[1] & 0x1) << 7 | self._payload[2] >> 1\n            mid = f\"{mid}_{subtype:03d}\"\n\n        return str(mid)",
-        "msgno = (self._payload[0] << 4) + (self._payload[1] >> 4)\n        if msgno != 4076:\n            return str(msgno)\n        st = ((self._payload[1] & 1) << 7) + (self._payload[2] >> 1)\n        return f\"{msgno}_{st:03d}\"")], "equivalent rewrite of identity")
+silent("c15-identity-locals-renamed", ["C15"], [(MSG, "mid = self._payload[0] << 4 | self._payload[1] >> 4\n\n        if mid == 4076 and len(self._payload) > 2:  # proprietary IGS SSR message type\n            subtype = (self._payload[1] & 0x1) << 7 | self._payload[2] >> 1\n            mid = f\"{mid}_{subtype:03d}\"\n\n        return str(mid)",
+        "msgno = (self._payload[0] << 4) + (self._payload[1] >> 4)\n        if msgno != 4076 or len(self._payload) < 3:\n            return str(msgno)\n        st = ((self._payload[1] & 1) << 7) + (self._payload[2] >> 1)\n        return f\"{msgno}_{st:03d}\"")], "equivalent rewrite of identity")
 
 # ----------------------------------------------------------------------------- C19
 _DD_NEW = '    while datafield not in RTCM_DATA_FIELDS and "_" in datafield:\n        datafield = datafield.rsplit("_", 1)[0]\n    (_, _, _, desc) = RTCM_DATA_FIELDS[datafield]'
@@ -314,5 +314,19 @@ fire("c16-option-in-str", ["C16"], MSG, '        stg = f"<RTCM({self.identity}, 
 fire("c16-second-table-lookup", ["C16"], MSG, "                fqc = sgc[1] if sigcode else sgc[0]", "                fqc = sgc[1] if sigcode else sigmap.get(idx + 1, (NA, NA))[0]", "band label taken from the next signal ID")
 fire("c16-default-mismatch", ["C16"], RDR, "        message: bytes,\n        validate: int = VALCKSUM,\n        labelmsm: int = 1,", "        message: bytes,\n        validate: int = VALCKSUM,\n        labelmsm: int = 2,")
 silent("c16-sigcode-style", ["C16", "C09"], [(MSG, "        sigcode = 0 if self._labelmsm == 2 else 1\n", "        sigcode = self._labelmsm != 2\n")], "equivalent option test")
+
+# ----------------------------------------------------------------------------- C04
+fire("c04-length-guard-removed", ["C04"], MSG, "        if len(self._payload) < 2:\n            raise RTCMMessageError(\"Payload must be at least 2 bytes (message number)\")\n", "", "original defect F-C04 re-introduced: IndexError from identity inside the handler")
+fire("c04-subtype-guard-removed", ["C04"], MSG, "if mid == 4076 and len(self._payload) > 2:", "if mid == 4076:", "two-byte 4076 payload raises IndexError")
+fire("c04-guard-one-byte", ["C04"], MSG, "        if len(self._payload) < 2:\n", "        if len(self._payload) < 1:\n", "one-byte payload still indexes byte 1")
+fire("c04-decoder-handler-narrow", ["C04"], MSG, "        except Exception as err:  # pragma: no cover", "        except (ValueError, AttributeError) as err:  # pragma: no cover", "KeyError/IndexError from the decoder escape (survives the test-suite)")
+fire("c04-reader-handler-class-removed", ["C04"], RDR, "                RTCMStreamError,\n                RTCMTypeError,\n            ) as err:", "                RTCMStreamError,\n            ) as err:", "RTCMTypeError escapes the iterator in ignore mode")
+fire("c04-parse-unguarded-subscript", ["C04"], RDR, "        payload = message[3:-3]\n", "        payload = message[3:-3]\n        if message[2] + 6 != len(message) and validate > 1:\n            raise RTCMParseError(\"length mismatch\")\n", "IndexError for buffers shorter than 3 bytes")
+fire("c04-new-loop", ["C04"], RDR, "        data = self._stream.read(size)\n", "        data = self._stream.read(size)\n        while len(data) < size and data:\n            data += self._stream.read(0)\n", "retry loop that never makes progress")
+fire("c04-eof-handler-removed", ["C04", "C02"], RDR, "            except EOFError:\n                return (None, None)\n", "", "EOFError escapes at end of stream")
+fire("c04-do-error-raises-always", ["C04", "C05"], RDR, "        if self._quitonerror == ERR_RAISE:\n            raise err from err", "        if self._quitonerror >= ERR_LOG:\n            raise err from err", "log mode raises")
+fire("c04-getattr-in-handler", ["C04"], MSG, '                    f"in message type {self.identity} {err}"', '                    f"in message type {self.identity} {err} at {self._lastattr}"', "AttributeError raised while building the error message")
+fire("c04-stopiteration-elsewhere", ["C04"], RDR, "        byten = self._read_line()  # NMEA protocol is CRLF-terminated\n", "        byten = self._read_line()  # NMEA protocol is CRLF-terminated\n        if not byten.endswith(b\"\\r\\n\"):\n            raise StopIteration\n")
+silent("c04-length-guard-style", ["C04", "C15"], [(MSG, "        if len(self._payload) < 2:\n", "        if not len(self._payload) >= 2:\n")], "equivalent guard")
 
 VARIANTS = V
